@@ -129,12 +129,13 @@ enum Op
   OpCreate,
   OpJoin,
   OpYield,
-  OpSleep
+  OpSleep,
+  OpResume
 };
 const char *opName(int op)
 {
   static const char *n[] = {"none",   "start",     "point",  "lock",   "trylock",  "unlock", "cv_wait", "signal",
-                            "bcast",  "rdlock",    "wrlock", "rwunlock", "create", "join",   "yield",   "sleep"};
+                            "bcast",  "rdlock",    "wrlock", "rwunlock", "create", "join",   "yield",   "sleep", "resume"};
   return n[op];
 }
 
@@ -492,7 +493,12 @@ int pthread_mutex_unlock(pthread_mutex_t *m)
     Lock l;
     G->owner.erase(m);
   }
-  return r_mutex_unlock(m);
+  int rc = r_mutex_unlock(m);
+  // optionally a second schedule point right AFTER the unlock: the code between an unlock and the thread's next
+  // synchronisation operation (a callback invoked outside the lock, a spawn, a notify decision) is then a step of its
+  // own, so other threads can run inside that window
+  if (G->opt.pointAfterUnlock) atPoint(t, OpResume, nullptr, nullptr, false);
+  return rc;
 }
 
 int pthread_cond_wait(pthread_cond_t *c, pthread_mutex_t *m)
